@@ -177,6 +177,16 @@ pub fn gen_haystack(rng: &mut Rng, var: Var, alpha: &Alpha, maxlen: usize, pats:
             k += 1;
         }
     }
+    // byte-wise: some haystacks have exactly the length of an inline array type (see Pma::iter_owned)
+    if var == Var::B && maxlen >= 8 && rng.chance(1, 3) {
+        let n = *rng.pick(&[4usize, 8, 8, 16, 16, 32]);
+        if n <= maxlen + 20 {
+            while out.len() < n {
+                out.push(*rng.pick(&alpha.pat) as u8);
+            }
+            out.truncate(n);
+        }
+    }
     out
 }
 
